@@ -107,6 +107,7 @@ func runC24(tb stat.TB, c c24Case) {
 	s := newSession(tb, v, absnfs.ExportOptions{Squash: c.InitSquash, MaxWorkers: 2})
 	defer s.close()
 	nt := false
+	squash0 := s.e.NFS.GetExportOptions().Squash
 	abandoned := guard(func() {
 		root := s.mount()
 		fr := s.nfs(nfsx.ProcLookup, nfsx.ArgsDirop(root, "f"))
@@ -210,6 +211,13 @@ func runC24(tb stat.TB, c c24Case) {
 					if stat.Violate(tb, id, check, "rejected-update-changes-configuration", c, "%s was rejected (%v) but the configuration changed:\n before %s\n after  %s", what, err, beforeDesc, d) {
 						return
 					}
+				}
+			}
+			// ---- Squash is immutable at runtime (docs/api/export-options.md): whatever the update asked for and
+			// whether or not it was accepted, the construction mode stays the one reported (and in force)
+			if after.Squash != squash0 {
+				if stat.Violate(tb, id, check, "squash-changed-at-runtime", c, "%s (squash field %q, error %v): GetExportOptions().Squash was %q at construction and is %q now", what, sq, err, squash0, after.Squash) {
+					return
 				}
 			}
 			// ---- reported configuration is positive
